@@ -35,6 +35,7 @@ func runC19(c *core.Ctx, r *core.Reporter) {
 	c19pinned(c, r)
 	c19value(c, r)
 	c19symleaf(c, r, "C19.symleaf")
+	c19nilslot(c, r)
 }
 
 // c19pinned: what is saved does not depend on how the session happens to print.
